@@ -1331,6 +1331,13 @@ type Sequence struct {
 // Next would return the next integer in the sequence, updating the lease by running a transaction
 // if needed.
 func (seq *Sequence) Next() (uint64, error) {
+	vhook.WaitLock("seq.lock", func() bool {
+		if seq.lock.TryLock() {
+			seq.lock.Unlock()
+			return true
+		}
+		return false
+	})
 	seq.lock.Lock()
 	defer seq.lock.Unlock()
 	if seq.next >= seq.leased {
@@ -1347,6 +1354,13 @@ func (seq *Sequence) Next() (uint64, error) {
 // before closing the associated DB. However it is valid to use the sequence after
 // it was released, causing a new lease with full bandwidth.
 func (seq *Sequence) Release() error {
+	vhook.WaitLock("seq.lock", func() bool {
+		if seq.lock.TryLock() {
+			seq.lock.Unlock()
+			return true
+		}
+		return false
+	})
 	seq.lock.Lock()
 	defer seq.lock.Unlock()
 	err := seq.db.Update(func(txn *Txn) error {
@@ -1971,6 +1985,8 @@ func (db *DB) Subscribe(ctx context.Context, cb func(kv *KVList) error, matches 
 	if err != nil {
 		return y.Wrapf(err, "while creating a new subscriber")
 	}
+	vhook.Event("sub.registered", s.id, 0)
+	vhook.Point("subscriber.registered")
 	slurp := func(batch *pb.KVList) error {
 		for {
 			select {
@@ -2015,6 +2031,7 @@ func (db *DB) Subscribe(ctx context.Context, cb func(kv *KVList) error, matches 
 			// Delete the subscriber to avoid further updates.
 			return ctx.Err()
 		case batch := <-s.sendCh:
+			vhook.Point("subscriber.recv")
 			err := slurp(batch)
 			if err != nil {
 				c.Done()
